@@ -41,7 +41,7 @@ CLAIMED["C03"] = (
     "control-dependence (flag-sensitive edge dominance) of every work-starting / dirtiness-spreading site on its justifying predicate, recognised semantically (PartialEq results, enum discriminants, promoted constants)",
     "Decides: inputs enqueued only on fingerprint change; propagation stops at firewall/projection callers; recomputed firewall/projection spreads only on change; "
     "in-lock double check; re-execution only on Recompute/backward-projection; clean edges skipped by exactly the documented condition; executor call sites; "
-    "the pending-projection marker is honoured only at its own epoch; epochs are only ever compared for equality. "
+    "epochs are only ever compared for equality. "
     "Not decided: minimality per invocation over all histories.",
     "Trusted: rustc nightly MIR; the frozen anchors in engine/qbv/rules/C03.py.")
 
@@ -135,7 +135,7 @@ ADDENDA = {
            "the popped stripped-buffer edge is the one processed; firewall set and the observations of its members are replaced together with the callees' current fingerprints (D8). Round 5: only abort_callee / clear take entries out of the recorded order; C01.o is a lower bound (User, RepairFirewall); KNOWN FINDING K1 (C01.t: a callee read by an executor for the first time is verified against unrepaired firewalls) is reported as a KNOWN-FINDING line, see DESIGN 6b; K2 (C01.u: a pending backward projection honoured only at its own epoch) was repaired as D19 and the clause is armed.",
     "C02": "Later clauses: upgrade_to_exclusive resets every memoised column after re-acquiring; the tier upgrade of a caller set re-inserts every drained member; the key-of-set loader / overlay / merging reader "
            "clauses of C09 (as C02.h), because caller sets are key-of-set entries. Round 5: epoch read under the phase lock (C04.a as C02.j); KNOWN FINDING K3 (C02.i: the undo token of register_callee belongs to the call, not to the registration).",
-    "C03": "Later clause: no Recompute is reachable from a Cleaned / NoNeed answer of a callee check (only a changed value forces re-execution). Round 5: observations of every callee survive a clean verification (C01.s as C03.k).",
+    "C03": "Later clause: no Recompute is reachable from a Cleaned / NoNeed answer of a callee check (only a changed value forces re-execution). Round 5: observations of every callee survive a clean verification (C01.s as C03.k). Since D19 the marker clauses read: both sites test the marker's presence only (C03.f), and every re-execute exit of should_recompute_query lies behind RepairDecision::Recompute, also for a backward projection (C03.d).",
     "C04": "Later clauses: a session starts uncommitted and only commit() sets the flag; the phase lock is acquired only by Engine::tracked / snapshot_graph_from, the session guard only by Engine::input_session. Round 5: every guarded() tail of the reader phase owns an ActiveComputationGuard (C04.h, D13); the session's propagation starts from an empty visited set (C01.p as C04.i).",
     "C05": "Later clauses: defuse disarms / new arms the undo tokens; Guard::drop reaches take()+spawn on EVERY path (no early exit); the join of parallel repair chunks lowers the flag only on Ok(Cleaned) (as C05.f); abort_callee removes on both arms (as C05.g). Round 5: KNOWN FINDING K3 as C05.h. No detached helper tasks on the query side (C05.i).",
     "C06": "Later clauses: register_callee registers on every path; the probe marks the start false; the Result of a callee's repair is inspected before its stored info is read (D9). Round 5: edge-role / arm-symmetry clauses of set_computed (C01.c as C06.i). The repairing caller introduces itself under its own id (C06.l); no observation for a caller already on a cycle (C06.j, D15); KNOWN FINDING K5 (C06.k: the SCC mark of the repair phase reaches the executor).",
